@@ -430,10 +430,15 @@ def run(sc) -> RunResult:
         try:
             if intr and intr["phase"] == "initial":
                 seam.interrupt_at = seam.draws + intr["draw"]
+                fired0 = seam.interrupts_fired
                 try:
                     builder.initial()
-                except Interrupted:
-                    # the caller catches the failure and asks the same builder again
+                except DrawBudgetExceeded:
+                    raise
+                except Exception:
+                    if seam.interrupts_fired == fired0:
+                        raise
+                    # the caller catches the failure (whatever it was wrapped into) and asks the same builder again
                     res.hit("fault:random_source_failed_during_initial")
                     res.log("initial", "interrupted", seam.draws)
                 finally:
@@ -484,8 +489,16 @@ def run(sc) -> RunResult:
             history.append(snapshot)
             if intr and intr["phase"] == "walk" and intr["step"] == step:
                 seam.interrupt_at = seam.draws + intr["draw"]
+            fired0 = seam.interrupts_fired
             try:
-                cands = builder.candidates(cur)
+                try:
+                    cands = builder.candidates(cur)
+                except DrawBudgetExceeded:
+                    raise
+                except Exception:
+                    if seam.interrupts_fired == fired0:
+                        raise
+                    raise Interrupted("the injected failure reached the caller")
             except Interrupted:
                 # the failure reached the caller: it carries on with the same builder from (a copy of)
                 # the value it had
